@@ -65,7 +65,7 @@ fi
 # 3. demo with patch / without patch (SEED/demo is recreated in the verify worktree because some demo commands copy from it)
 (cd $OUT/demo_tree && find . -type f | sed 's#^\./##') | while read -r f; do mkdir -p $V/$(dirname $f); cp $OUT/demo_tree/$f $V/$f; done
 mkdir -p $V/SEED/demo; cp -r $OUT/demo_src/. $V/SEED/demo/ 2>/dev/null
-DEMO_CMD=$(python3 -c "import json;print(json.load(open('$OUT/meta.json')).get('demo_cmd',''))" 2>/dev/null | sed "s#$ORIG_SW#$V#g" | sed -E 's/ +\(or:.*\) *$//')
+DEMO_CMD=$(python3 -c "import json;print(json.load(open('$OUT/meta.json')).get('demo_cmd',''))" 2>/dev/null | sed "s#$ORIG_SW#$V#g" | sed -E 's/ +\((or|equivalently|alternatively)[^)]*\) *$//')
 res "demo_cmd=$DEMO_CMD"
 if [ -n "$DEMO_CMD" ]; then
   ( cd $V && eval "$DEMO_CMD" ) > $OUT/demo_with_patch.log 2>&1; res "demo_with_patch_exit=$?"
